@@ -73,6 +73,8 @@ def obligations(tier):
         for kj, ki, km, kp, extra in prod:
             obs.append({'h': 'object', 'k': [kj, ki, km, kp], 'extra': extra, 'disp': d,
                         'pd': 'int' if (kp in ('dict1', 'list1')) else 'absent'})
+        for digits, where in it.product((4300, 4301, 5000), ('id', 'id_unknown', 'params', 'batch_id', 'whole')):
+            obs.append({'h': 'bigint', 'digits': digits, 'where': where, 'disp': d})
         for exc, shape in it.product(EXC_TYPES, ('single', 'notif', 'batch')):
             obs.append({'h': 'excs', 'exc': exc, 'shape': shape, 'disp': d})
         maxlen = 2 if tier == 'quick' else 3
@@ -168,6 +170,35 @@ def h_text(ob):
         out = _dispatch(rig, text)
         env.reached()
         r = check_c01(out, env_real_wire)
+        return [r[1]] if r else None
+
+    return run
+
+
+def h_bigint(ob):
+    """Integer literals beyond the interpreter's int <-> str digit limit, at the places where they would flow into the
+    response (id, echoed params) or not (method-less documents): concrete texts through the REAL json codec."""
+    def run(env):
+        n = ob['digits']
+        lit = '9' * n
+        where = ob['where']
+        if where == 'id':
+            text = '{"jsonrpc": "2.0", "id": ' + lit + ', "method": "echo", "params": [1]}'
+        elif where == 'id_unknown':
+            text = '{"jsonrpc": "2.0", "id": -' + lit + ', "method": "nosuch"}'
+        elif where == 'params':
+            text = '{"jsonrpc": "2.0", "id": 1, "method": "echo", "params": [' + lit + ']}'
+        elif where == 'batch_id':
+            text = '[{"jsonrpc": "2.0", "id": 1, "method": "echo", "params": [1]}, {"jsonrpc": "2.0", "id": ' + lit + ', "method": "echo", "params": [2]}]'
+        else:
+            text = lit
+        real = Wire(env)
+        real.real = True
+        with env.untraced():
+            rig = Rig(env, ob['disp'], wire=real)
+            out = _dispatch(rig, text)
+        env.reached()
+        r = check_c01(out, real)
         return [r[1]] if r else None
 
     return run
